@@ -135,7 +135,10 @@ def programs(draw, max_ops: int = 4, allow_xr: bool = True, ops_pool: list[str] 
         kind = draw(st.sampled_from(pool))
         big = [d for d in cur_dims if cur_sizes[d] >= 2]
         if kind == "map":
-            prog["ops"].append(["map", draw(st.sampled_from(sorted(UNARY)))])
+            if draw(st.integers(0, 3)) == 0:
+                prog["ops"].append(["map_array"])  # an array of payloads, one per node
+            else:
+                prog["ops"].append(["map", draw(st.sampled_from(sorted(UNARY)))])
         elif kind in ("reduce", "reduce_user") and big:
             d = draw(st.sampled_from(big))
             if kind == "reduce_user":
@@ -148,6 +151,8 @@ def programs(draw, max_ops: int = 4, allow_xr: bool = True, ops_pool: list[str] 
                     b = draw(st.integers(2, cur_sizes[d] - 1))
                 keep = draw(st.booleans())
                 prog["ops"].append(["reduce", f, d, b, keep])
+                if d == cur_dims[0] and draw(st.booleans()):
+                    prog["ops"][-1].append(True)  # the dimension is not named: the documented default is the first one
             _drop(cur_dims, cur_sizes, cur_coords, d, keep)
         elif kind in ("stack", "flatten") and cur_dims and not use_xr:
             d = draw(st.sampled_from(cur_dims))
@@ -156,6 +161,8 @@ def programs(draw, max_ops: int = 4, allow_xr: bool = True, ops_pool: list[str] 
             if kind == "flatten" and cur_sizes[d] < 2:
                 continue
             prog["ops"].append([kind, d, ax, keep])
+            if kind == "flatten" and d == cur_dims[0] and draw(st.booleans()):
+                prog["ops"][-1].append(True)  # flatten() without naming the dimension
             if cur_sizes[d] >= 2:
                 icur.insert(ax, cur_sizes[d])
                 _drop(cur_dims, cur_sizes, cur_coords, d, keep)
@@ -304,11 +311,25 @@ def apply_op(a, m: Model, op: list, src_xr: bool, hooks=None):
     nd = m.nd
     if k == "map":
         return a.map(UNARY[op[1]]), Model(UNARY[op[1]](m.M), m.dims, m.coords), tags
+    if k == "map_array":
+        from earthkit.workflows import fluent as _fl
+
+        shape = tuple(len(m.coords[d]) for d in m.dims)
+        pl = np.empty(shape, dtype=object)
+        K = np.zeros(shape, dtype=float)
+        for n_, idx in enumerate(np.ndindex(*shape)):
+            pl[idx] = _fl.Payload(addk, [_fl.Node.input_name(0), 2 * n_ + 1])
+            K[idx] = 2 * n_ + 1
+        return a.map(pl), Model(m.M + K.reshape(shape + (1,) * (m.M.ndim - nd)), m.dims, m.coords), tags
     if k in ("reduce", "reduce_user"):
         if k == "reduce":
-            _k, f, d, b, keep = op
+            _k, f, d, b, keep = op[:5]
             ax = m.dims.index(d)
-            res = getattr(a, f)(dim=d, batch_size=b, keep_dim=keep)
+            if len(op) > 5 and op[5]:
+                tags.append("default_dim")
+                res = getattr(a, f)(batch_size=b, keep_dim=keep)
+            else:
+                res = getattr(a, f)(dim=d, batch_size=b, keep_dim=keep)
             with np.errstate(all="ignore"):
                 M2 = NPRED[f](m.M, axis=ax)
             size = len(m.coords[d])
@@ -321,10 +342,13 @@ def apply_op(a, m: Model, op: list, src_xr: bool, hooks=None):
             M2 = np.sum(m.M, axis=ax)
         return res, _reduced(m, d, ax, M2, keep), tags + (["keep_dim"] if keep else [])
     if k in ("stack", "flatten"):
-        _k, d, iax, keep = op
+        _k, d, iax, keep = op[:4]
         ax = m.dims.index(d)
         size = len(m.coords[d])
-        if k == "flatten":
+        if k == "flatten" and len(op) > 4 and op[4]:
+            tags.append("default_dim")
+            res = a.flatten(axis=iax)
+        elif k == "flatten":
             res = a.flatten(dim=d, axis=iax)
         else:
             res = a.stack(d, keep_dim=keep, axis=iax)
